@@ -66,6 +66,21 @@ def _models(tier, seed):
     return out
 
 
+def _cmodels(tier, seed):
+    if tier == "quick":
+        plan = [("F3", ("full", "rankdef"), (0.1, 10.0)), ("a2b1", ("full", "rankdef"), (0.1,))]
+    else:
+        plan = [("F3", ("full", "rankdef", "wide"), (0.1, 1.0, 10.0, "diag")), ("F2", ("full", "rankdef"), (0.1, 10.0)),
+                ("a2b1", ("full", "rankdef", "wide"), (0.1, 10.0, "diag"))]
+    out, var = [], 0
+    for layout, rshapes, noises in plan:
+        for rs in rshapes:
+            for noise in noises:
+                var += 1
+                out.append(M.make_cspec(M.Fill(seed, var, salt=2001), layout, rs, noise))
+    return out
+
+
 def cases(tier, seed):
     out = []
     first = True
@@ -95,7 +110,15 @@ def cases(tier, seed):
         for mode in modes:
             for ns in ((1,) if mode != "linear_resample" else (1, 2)):
                 out.append(dict(driver="mgvi_re", model=spec, ns=ns, mode=mode, jit=True))
-    order = dict(wfc_cl=0, map_cl=1, mgvi_cl=2, wf_re_api=3, wf_re_mean=4, wf_re_samples=5, map_re=6, mgvi_re=7)
+    # complex response, complex data, real latent parameters
+    for spec in _cmodels(tier, seed):
+        out.append(dict(driver="wfc_cl_cplx", model=spec))
+        for sig in (True, False):
+            for linear in (True, False):
+                out.append(dict(driver="wf_re_cmean", model=spec, signal_space=sig, model_is_linear=linear))
+        out.append(dict(driver="wf_re_csamples", model=spec, signal_space=True, ns=1))
+    order = dict(wfc_cl=0, map_cl=1, mgvi_cl=2, wfc_cl_cplx=2.5, wf_re_api=3, wf_re_mean=4, wf_re_cmean=4.5, wf_re_samples=5,
+                 wf_re_csamples=5.5, map_re=6, mgvi_re=7)
 
     def cost(c):
         r = M.Ref(c["model"])
@@ -472,6 +495,159 @@ def _run_wf_re_samples(case):
     return ok(nontrivial=bool(np.abs(ref.R).max() > 0), outcome="%s|%s" % (drv, _rk(spec)), stats=dict(unit_vectors=r["n"]), detail=det)
 
 
+# ------------------------------------------------------------------ complex response, real latent parameters
+def _cdatas(ref):
+    """every real and every imaginary unit data vector + the generic complex data"""
+    E = np.eye(ref.nd)
+    return [E[k] + 0j for k in range(ref.nd)] + [1j * E[k] for k in range(ref.nd)] + [ref.dc.copy()]
+
+
+def _cmean_check(means, ref, drv, det):
+    W = ref.cfilter()
+    G = np.array(means[:2 * ref.nd]).T
+    dev = float(np.abs(G - W).max(initial=0.))
+    if not dev <= TOL * _scale(W):
+        k = int(np.argmax(np.abs(G - W).max(axis=0)))
+        return bad("%s: posterior mean for the %s unit data vector %d differs from D Re(R^H N^-1 e) by %.3g (complex response %s)"
+                   % (drv, "real" if k < ref.nd else "imaginary", k % ref.nd, dev, _rs(ref.spec)),
+                   finding_key="%s|mean-mismatch|unit-data" % drv, detail=det)
+    m, _ = ref.cposterior()
+    if not np.abs(means[-1] - m).max() <= TOL * _scale(m):
+        return bad("%s: posterior mean for generic complex data differs from the closed form by %.3g" % (drv, np.abs(means[-1] - m).max()),
+                   finding_key="%s|mean-mismatch|generic-data" % drv, detail=det)
+    return None
+
+
+def _run_wf_re_cmean(case):
+    import jax
+    import nifty.re as jft
+    M.quiet_re()
+    spec = case["model"]
+    ref = M.CRef(spec)
+    drv = "wf_re_cplx|%s|%s" % ("signal-space" if case["signal_space"] else "data-space", "linear" if case["model_is_linear"] else "linearised")
+    det = dict(model=spec["name"])
+    means = []
+    try:
+        for d in _cdatas(ref):
+            b = M.build_re_cplx(spec, d)
+            s, info = jft.wiener_filter_posterior(b["lh"], key=jax.random.PRNGKey(0), n_samples=0, jit=False,
+                                                  draw_linear_kwargs=dict(cg_kwargs=CGK), **_wf_kwargs(case, b))
+            leaves = jax.tree_util.tree_leaves(s.pos)
+            if M.re_leaf_shapes(s.pos) != M.re_leaf_shapes(b["pos"]) or any(np.iscomplexobj(np.asarray(l)) for l in leaves):
+                return bad("%s: posterior mean of real latent parameters has leaves %s of dtype %s" % (
+                    drv, M.re_leaf_shapes(s.pos), [str(np.asarray(l).dtype) for l in leaves]), finding_key="%s|mean-structure" % drv, detail=det)
+            means.append(M.re_flat(s.pos, ref))
+    except Exception as e:   # noqa
+        return bad("%s raised %r in %s" % (drv, e, _where(e)), finding_key="%s|raises|%s@%s" % (drv, type(e).__name__, _where(e)), detail=det)
+    out = _cmean_check(means, ref, drv, det)
+    if out is not None:
+        return out
+    return ok(nontrivial=True, outcome="%s|%s" % (drv, _rk_c(ref)), stats=dict(unit_vectors=2 * ref.nd), detail=det)
+
+
+def _rk_c(ref):
+    return "fullrank" if np.linalg.matrix_rank(ref.Rr) == ref.n else "rankdef"
+
+
+def _run_wf_re_csamples(case):
+    import jax
+    import nifty.re as jft
+    M.quiet_re()
+    spec = case["model"]
+    b = M.build_re_cplx(spec)
+    ref = b["ref"]
+    n = ref.n
+    drv = "wf_re_cplx|samples"
+    det = dict(model=spec["name"])
+    m, D = ref.cposterior()
+    kw = _wf_kwargs(case, b)
+
+    def runf():
+        s, info = jft.wiener_filter_posterior(b["lh"], key=jax.random.PRNGKey(3), n_samples=1, jit=False, residual_map=M.pymap,
+                                              draw_linear_kwargs=dict(cg_kwargs=CGK), **kw)
+        return np.concatenate([M.re_flat(s.pos, ref), M.re_flat(s._samples, ref, 1).ravel()])
+    try:
+        r = M.tape_map(runf, lambda v: np.asarray(v).real if not np.iscomplexobj(v) or np.abs(np.imag(v)).max() == 0 else v, M.scripted_re_keyed)
+    except Exception as e:   # noqa
+        return bad("%s raised %r in %s" % (drv, e, _where(e)), finding_key="%s|raises|%s@%s" % (drv, type(e).__name__, _where(e)), detail=det)
+    det.update(ndraw=r["n"], log=r["log"])
+    if r["off"].size != 3 * n or r["n"] == 0:
+        return bad("%s: %d outputs / %d draws" % (drv, r["off"].size, r["n"]), finding_key="%s|sample-count" % drv, detail=det)
+    if not (np.abs(r["off"][:n] - m).max() <= TOL * _scale(m) and np.abs(r["L"][:n]).max() == 0.):
+        return bad("%s: Samples.pos is not the posterior mean" % drv, finding_key="%s|mean-mismatch" % drv, detail=det)
+    if np.abs(r["off"][n:]).max() != 0. or r["resid"] > TOL * _scale(D):
+        return bad("%s: residuals are not a zero-mean linear map of the excitation" % drv, finding_key="%s|not-gaussian" % drv, detail=det)
+    L = r["L"][n:2 * n]
+    C = L @ L.T
+    if not np.abs(C - D).max() <= TOL * _scale(D):
+        # which law do the samples have?  with the complex white excitation counted at unit TOTAL variance the data term of the
+        # sampled metric is only half the Fisher information Re(R^H N^-1 R)
+        Dhalf = np.linalg.inv(np.eye(n) + 0.5 * (np.linalg.inv(D) - np.eye(n)))
+        Mx = np.linalg.inv(D)
+        alt = Mx @ C @ Mx                     # covariance of the metric sample
+        half = np.abs(alt - (np.eye(n) + 0.5 * (Mx - np.eye(n)))).max() <= TOL * _scale(Mx)
+        return bad("%s: covariance of the posterior samples differs from D = (1 + Re(R^H N^-1 R))^-1 by %.3g%s" % (
+            drv, np.abs(C - D).max(), " (the metric sample carries only HALF of the data term: complex white noise drawn with unit "
+            "total variance instead of unit variance per real component)" if half else ""),
+            finding_key="%s|cov-mismatch|%s" % (drv, "half-data-term" if half else "other"), detail=det)
+    if not np.array_equal(r["L"][2 * n:], -L):
+        return bad("%s: mirrored residual is not the exact negative" % drv, finding_key="%s|mirror-not-negative" % drv, detail=det)
+    return ok(nontrivial=True, outcome="%s|%s" % (drv, _rk_c(ref)), stats=dict(unit_vectors=r["n"]), detail=det)
+
+
+def _run_wfc_cl_cplx(case):
+    """classic WienerFilterCurvature with a complex response acting on a real field (adjoint w.r.t. the real scalar product)"""
+    import nifty.cl as ift
+    from vf import rngseam, dense
+    M.quiet_cl()
+    spec = case["model"]
+    ref = M.CRef(spec)
+    n = ref.n
+    drv = "wfc_cl_cplx"
+    det = dict(model=spec["name"])
+    b = M.build_cl(dict(spec, R=spec["R"]))          # domains / keys only
+    dom, ddom = b["dom"], b["ddom"]
+    Rc = ref.Rc
+
+    class CResp(ift.LinearOperator):
+        def __init__(self):
+            self._domain, self._target = dom, ddom
+            self._capability = self.TIMES | self.ADJOINT_TIMES
+
+        def apply(self, x, mode):
+            self._check_input(x, mode)
+            if mode == self.TIMES:
+                return ift.makeField(ddom, Rc @ M.cl_flat(x, ref.keys))
+            return M.cl_unflat(dom, np.real(Rc.conj().T @ M.cl_flat(x)), ref.keys)
+    R = CResp()
+    N = ift.DiagonalOperator(ift.makeField(ddom, ref.nvar), sampling_dtype=np.complex128)
+    S = ift.ScalingOperator(dom, 1., sampling_dtype=np.float64)
+    ic = ift.GradientNormController(tol_abs_gradnorm=1e-13, iteration_limit=400)
+    m, D = ref.cposterior()
+    try:
+        curv = ift.WienerFilterCurvature(R, N, S, ic, ic)
+        Dm = dense.rmatrix(curv, ift.LinearOperator.INVERSE_TIMES, complex_in=False)
+        means = []
+        for d in _cdatas(ref):
+            j = R.adjoint_times(N.inverse_times(ift.makeField(ddom, np.asarray(d, dtype=np.complex128))))
+            means.append(M.cl_flat(curv.inverse_times(j), ref.keys).real)
+        r = M.tape_map(lambda: curv.draw_sample(from_inverse=True), lambda s: M.cl_flat(s, ref.keys), rngseam.scripted_cl)
+    except Exception as e:   # noqa
+        return skip("classic WienerFilterCurvature does not support a complex response: %s@%s" % (type(e).__name__, _where(e)))
+    if not (np.abs(Dm[:n] - D).max() <= TOL * _scale(D) and np.abs(Dm[n:]).max(initial=0.) <= TOL):
+        return bad("wfc_cl_cplx: inverse_times on unit vectors differs from (1 + Re(R^H N^-1 R))^-1 by %.3g" % np.abs(Dm[:n] - D).max(),
+                   finding_key="%s|inverse-mismatch" % drv, detail=det)
+    out = _cmean_check(means, ref, drv, det)
+    if out is not None:
+        return out
+    if np.abs(r["off"]).max(initial=0.) > 1e-13 or r["resid"] > TOL * _scale(D) or r["n"] == 0:
+        return bad("wfc_cl_cplx: samples are not a zero-mean linear map of the excitation", finding_key="%s|not-gaussian" % drv, detail=det)
+    out = _cov_check(np.asarray(r["L"]), D, drv, "posterior samples", det)
+    if out is not None:
+        return out
+    return ok(nontrivial=True, outcome="%s|%s" % (drv, _rk_c(ref)), stats=dict(unit_vectors=n + 2 * ref.nd + r["n"]), detail=det)
+
+
 def _okl_re(b, ns, mode, jit):
     import jax
     import nifty.re as jft
@@ -537,7 +713,8 @@ def _run_mgvi_re(case):
 
 def finish(run):
     need = ["wfc_cl|S=unit|sampled", "wfc_cl|S=diag|sampled", "map_cl|", "mgvi_cl|ns=2", "wf_re|signal-space|linear", "wf_re|data-space|linear",
-            "wf_re|signal-space|linearised", "wf_re|data-space|samples", "map_re|", "mgvi_re|ns=2", "geovi_re|ns=1"]
+            "wf_re|signal-space|linearised", "wf_re|data-space|samples", "map_re|",
+            "wf_re_cplx|data-space|linear|rankdef", "wf_re_cplx|signal-space|linearised|fullrank", "wfc_cl_cplx|", "mgvi_re|ns=2", "geovi_re|ns=1"]
     have = list(run.outcomes)
     missing = [x for x in need if not any(h.startswith(x) for h in have)]
     if missing and not run.violations and not run.extra.get("filtered_by"):
